@@ -130,3 +130,7 @@ def jobs(tier):
       extra={'smt_ov_theory_new_eq__U__U_rec': c_eq},
       call_alias={('smt_ov_theory_new_eq__U__U', 'smt_ov_theory_new_eq__U__U'): 'smt_ov_theory_new_eq__U__U_rec'})
     return out
+
+
+# what the evidence file says is NOT decided by this module, and what it assumes
+INFO = {'not_under_contract': ['new_var(lits, vals)', 'var_flaw / solver::new_enum call sites', 'ov_theory propagate / push / pop', 'expression cache hits of ov_theory::new_eq'], 'assumptions': ['sat_core::new_var / new_clause / new_exct_one / new_eq / new_conj / new_disj behave as their C13 contracts say (proved there on the same source, restated here over the fields this unit sees)']}
